@@ -11,7 +11,8 @@ Space
     x contexts  MPFloat p in 1..12, 24, 53, 64, 113, 237
               | MPSFloat / IEEE small (subnormals, overflow), binary16/32/64 (thorough)
               | MPFixed nmin in -10, -1, 3      (the two-pass precision branch of mpfr_call)
-              | stochastic contexts with k = 1, 3 random bits, ALL 2^k draws (round_params widened)
+              | stochastic contexts with k = 1, 3 random bits, ALL 2^k draws (round_params widened);
+                bounded float families (IEEE small, binary16/32, EFloat, MPBFloat) with k = 1, 3, 4
     x 8 rounding modes;
   constants: the 12 named constants of fpy2.ops x EVERY precision 1..512 (both tiers) x 8 modes
     under MPFloat, MPFixed for every nmin in -200..-1 and 0, 1, 2, 3, 5, a few MPSFloat / IEEE
@@ -171,6 +172,16 @@ def function_contexts(tier: str, seed: int):
     if tier == 'quick':
         return core + [extra[seed % len(extra)]]
     return core + extra
+
+
+# stochastic variants of the BOUNDED float families (IEEE / EFloat delegate to MPBFloat)
+BOUNDED_CTX = [('IEEE', {'es': 4, 'nbits': 8}), ('IEEEstd', {'name': 'binary32'}),
+               ('EFloat', {'es': 4, 'nbits': 8, 'inf': True, 'nan_kind': 'IEEE_754', 'eoffset': 0}),
+               ('EFloat', {'es': 3, 'nbits': 8, 'inf': False, 'nan_kind': 'NEG_ZERO', 'eoffset': 0}),
+               ('MPBFloat', {'p': 5, 'emin': -4, 'maxval': Q(124)}), ('IEEEstd', {'name': 'binary16'})]
+BOUNDED_FUN = ('exp', 'log', 'sin', 'atan', 'tgamma')
+BOUNDED_ARGS = (Q(1), Q(2), Q(3, 4), Q(5, 4), Q(3), Q(7, 8))
+BOUNDED_CONST = ('const_pi', 'const_e', 'const_ln2', 'const_1_pi')
 
 
 def stochastic_contexts(tier: str):
@@ -361,6 +372,7 @@ class Check(BaseCheck):
         sh += [('c', c, 0) for c in CONSTANTS]
         sh += [('s', 'functions', i) for i in range(8)]
         sh += [('s', 'constants', 0)]
+        sh += [('s', 'bounded', i) for i in range(2)]
         sh += [('h', 'histories', i) for i in range(self.hparts)]
         return sh
 
@@ -582,6 +594,21 @@ class Check(BaseCheck):
             bad('probability', f'{away} of {1 << k} draws round away from zero; expected {want}')
 
     def run_stochastic(self, r, what, part):
+        if what == 'bounded':
+            # bounded float families delegate round_params to MPBFloatContext: results are kept well inside
+            # the normal range, so both neighbours exist and the count oracle applies unchanged
+            subjects = [(f, (q,)) for f in BOUNDED_FUN for q in BOUNDED_ARGS] + [(c, ()) for c in BOUNDED_CONST]
+            ctxs = [c for i, c in enumerate(BOUNDED_CTX) if i % 2 == part]
+            for fname, args in subjects:
+                x = E.Enclosed(fname, args)
+                if not x.is_real:
+                    r.count('precondition_false')
+                    continue
+                for family, params in ctxs:
+                    for k in (1, 3, 4):
+                        for mode in (MODES if self.tier != 'quick' or k != 4 else ('RNE', 'RTZ', 'RTP', 'RTO')):
+                            self.check_stochastic(r, fname, x, args, ('Float',) * len(args), family, params, k, mode)
+            return
         if what == 'constants':
             for cname in CONSTANTS:
                 x = E.Enclosed(cname)
@@ -904,10 +931,12 @@ def hist_histories(tier: str):
 def _parse_params(params: dict) -> dict:
     P = {}
     for a, v in params.items():
-        if a == 'name':
+        if a in ('name', 'nan_kind'):
             P[a] = v
         elif v in ('True', 'False'):
             P[a] = v == 'True'
+        elif v == 'None':
+            P[a] = None
         else:
             P[a] = Fraction(v) if '/' in v else int(v)
     return P
